@@ -144,6 +144,19 @@ def p4_scale(n=260):
             p.tag(name, T["STRING"], instance_id=100 + 3 * i)
         else:
             p.tag(name, "REAL", (50,), instance_id=100 + 3 * i)
+    # identifiers at their boundaries: template instance ids whose low byte is an atomic type code (0xC4 DINT, 0xCA REAL, 0xC1 BOOL, 0x00),
+    # symbol instance ids at the 8/16/32-bit segment boundaries
+    t1 = p.add_type(layout("IdC4UDT", 0x1C4, 0xD0C4, [("v", "DINT", 0), ("w", "INT", 0)]))
+    t2 = p.add_type(layout("IdCAUDT", 0x2CA, 0xD0CA, [("r", "REAL", 0), ("k", "BOOL", 0)]))
+    t3 = p.add_type(layout("Id00UDT", 0x100, 0xD000, [("z", "SINT", 0), ("y", "DINT", 0)]))
+    t4 = p.add_type(layout("IdC1UDT", 0xFC1, 0xD0C1, [("q", "INT", 3)]))
+    par = p.add_type(layout("IdsUDT", 0x322, 0xD002, [("m1", t1, 0), ("m2", t2, 2), ("m3", t3, 0), ("m4", t4, 0), ("n", "DINT", 0)]))
+    p.tag("ids_parent", par, instance_id=0xFF)
+    p.tag("ids_c4", t1, instance_id=0x101)  # 0x100 is taken by tag_052
+    p.tag("ids_ca_ary", t2, (2,), instance_id=0xFFFF)
+    p.tag("ids_00", t3, instance_id=0x10000)
+    p.tag("ids_c1", t4, instance_id=0x12345678)
+    p.tag("ids_dint", "DINT", instance_id=0xFFFFFFFE)
     p.tag("p_only", "DINT", scope="Prog", instance_id=1)
     from .projects import TagDef as TD
     p.add(TD("Program:Prog", None, (), 50, kind="program", symbol_type=0x1068))
